@@ -125,6 +125,22 @@ pub fn run(ctx: &mut Ctx) {
             }
         }
     }
+    // a literal collection whose ITEMS are marker expressions: each item is evaluated once (all / some / none)
+    // or not at all (map / filter / reduce: inert), and what an item evaluates to is data, never rule text again
+    for (name, e) in &ms {
+        if !ctx.mine() {
+            continue;
+        }
+        for coll in [json!([e]), json!([1, e]), json!([e, e])] {
+            for p in [json!({"var": ""}), json!({"var": "0"}), json!({"var": "0.0"}), json!({"log": {"var": ""}}), json!(true), json!({"===": [{"var": "0"}, "SECRET"]})] {
+                ctx.edge();
+                for k in ["all", "some", "none", "map", "filter"] {
+                    ctx.check(&format!("literal-collection-of-markers:{}", &name[..1]), &op(k, vec![coll.clone(), p.clone()]), &d);
+                }
+                ctx.check(&format!("literal-collection-of-markers:{}", &name[..1]), &json!({"reduce": [coll, {"merge": [{"var": "accumulator"}, [{"var": "current"}], [p]]}, []]}), &d);
+            }
+        }
+    }
     // named scenarios
     if ctx.mine() {
         let scenarios = vec![
